@@ -28,7 +28,7 @@ class Node:
 class Pool:
     """accumulates the Python source of the generated classes"""
     HEADER = ["from dataclasses import dataclass, field", "from typing import *", "from enum import Enum",
-              "from apischema import alias, schema, dependent_required", "from apischema.metadata import fall_back_on_default", "NoneType = type(None)", ""]
+              "from apischema import alias, schema, dependent_required, properties", "from apischema.metadata import fall_back_on_default, flatten", "NoneType = type(None)", ""]
     def __init__(self): self.src = list(self.HEADER); self.n = 0
     def fresh(self, p): self.n += 1; return f"{p}{self.n}"
     def add(self, lines): self.src += lines + [""]
@@ -230,6 +230,29 @@ class Gen:
         if not fs: lines.append("    pass")
         self.pool.add(lines)
         return self._obj_node("dataclass", n, fs, decl=lines)
+    def g_aggregate(self, d):
+        """dataclass with aggregate fields - an additional-`properties` mapping, a `properties(pattern=...)` mapping, or a
+        flattened dataclass: outside the Lean model (tag `aggregate`), inside the model-free checks"""
+        n = self.pool.fresh("C"); variant = self.rnd.choice(["additional", "additional", "pattern", "flatten"])
+        vt = self.rnd.choice([("Any", None), ("int", 3), ("str", "s")])
+        lines = ["@dataclass", f"class {n}:", "    a: int", "    b: Optional[str] = None"]
+        extra = {}
+        if variant == "additional":
+            lines.append(f"    extras: Dict[str, {vt[0]}] = field(default_factory=dict, metadata=properties)")
+            extra = {"kind": "additional", "value": vt}
+        elif variant == "pattern":
+            lines.append(f"    pat: Dict[str, {vt[0]}] = field(default_factory=dict, metadata=properties(pattern=r'^p_'))")
+            extra = {"kind": "pattern", "value": vt}
+        else:
+            inner = self.pool.fresh("I")
+            lines = ["@dataclass", f"class {inner}:", "    x: int = 0", "    y: Optional[str] = None", ""] + lines + [f"    inner: {inner} = field(default_factory={inner}, metadata=flatten)"]
+            extra = {"kind": "flatten"}
+        self.pool.add(lines)
+        fs = [dict(name="a", alias="a", required=True, fbod=False, ty=self.g_int(0), dflt=None, dflt_src=None),
+              dict(name="b", alias="b", required=False, fbod=False, ty=Node("optional", ["union", [["str"], ["none"]]], "Optional[str]", [self.g_str(0)]), dflt=["n"], dflt_src="None")]
+        node = self._obj_node("dataclass", n, fs, decl=lines)
+        node.tags = ("aggregate", "aggregate-" + extra["kind"]); node.aggregate = extra
+        return node
     def g_postinit(self, d):
         """dataclass whose `__post_init__` (own, or inherited from a base dataclass) normalises a field: outside the Lean
         model (tag `postinit`), used by the relational checks (constructor override, no_copy, precomputed method)"""
@@ -351,6 +374,16 @@ class Gen:
         for f in t.fields:
             if f["required"] and r.random() < 0.93 or (not f["required"] and r.random() < 0.55):
                 out[f["alias"]] = self.valid(f["ty"], depth + 1)
+        agg = getattr(t, "aggregate", None)
+        if agg:
+            val = lambda: r.choice(self.ATOMS) if agg.get("value", (None,))[0] == "Any" else agg["value"][1]
+            if agg["kind"] == "additional":
+                for k in r.sample(["zz", "p_x", "other"], r.randint(0, 2)): out[k] = val()
+            elif agg["kind"] == "pattern":
+                for k in r.sample(["p_x", "p_y"], r.randint(0, 2)): out[k] = val()
+            else:
+                if r.random() < 0.6: out["x"] = r.choice([0, 5])
+                if r.random() < 0.4: out["y"] = r.choice(["s", None])
         items = list(out.items()); r.shuffle(items)
         return dict(items)
     def mutate(self, d, depth=0):
